@@ -1371,6 +1371,124 @@ impl<'a> Cx<'a> {
         }
     }
 
+    /// Several wrapper calls on ONE register inside one function: read, write, read, write, read
+    /// (and reads of the GS bases around `swapgs`).  Every read must be executed again and deliver
+    /// what the preceding write stored - a register read is not a pure function.
+    fn compound_op(&mut self) -> R {
+        let label = self.op.clone();
+        if label == "gs_swap_reads" {
+            let (Some(g), Some(k)) = (self.m.base[1], self.m.base[2]) else { return Ok(()) };
+            let out = call(&label, false, || {
+                let a = GsBase::read().as_u64();
+                let ka = KernelGsBase::read().as_u64();
+                unsafe { GS::swap() };
+                let b = GsBase::read().as_u64();
+                let kb = KernelGsBase::read().as_u64();
+                vec![a, ka, b, kb]
+            });
+            self.m.base.swap(1, 2);
+            let (rg, rk) = (Reg::Msr(MSR_GS_BASE), Reg::Msr(MSR_KGS_BASE));
+            return self.finish(out, Exp::new(vec![ev_read(rg, g), ev_read(rk, k), Ev::Swapgs, ev_read(rg, k), ev_read(rk, g)], Some(vec![g, k, k, g])));
+        }
+        let t = self.u("t");
+        let (x1, x2) = (self.u("v1"), self.u("v2"));
+        let idx = MSR_CHOICES_PLAIN[(self.u("idx") as usize) % MSR_CHOICES_PLAIN.len()];
+        let dn = (self.u("n") % 4) as u8;
+        // (register, first value, second value)
+        let (reg, v1, v2): (Reg, u64, u64) = match t {
+            0 => {
+                let f = |v: u64| if matches!(idx, MSR_LSTAR | MSR_CSTAR | MSR_FS_BASE | MSR_GS_BASE | MSR_KGS_BASE) { canon(v) } else { sanitize_msr(idx, v) };
+                (Reg::Msr(idx), f(x1), f(x2))
+            }
+            1 => (Reg::Msr(MSR_KGS_BASE), canon(x1), canon(x2)),
+            2 => (Reg::Msr(MSR_LSTAR), canon(x1), canon(x2)),
+            3 => (Reg::Msr(MSR_FS_BASE), canon(x1), canon(x2)),
+            4 => (Reg::Msr(MSR_GS_BASE), canon(x1), canon(x2)),
+            5 => (Reg::Cr(3), x1 & 0x000f_ffff_ffff_ffff, x2 & 0x000f_ffff_ffff_ffff),
+            6 => (Reg::Dr(dn), x1, x2),
+            7 => (Reg::Msr(MSR_SFMASK), x1 & RFLAGS_ALL, x2 & RFLAGS_ALL),
+            8 => (Reg::Msr(MSR_STAR), x1 & 0xffff_ffff_0000_0000, x2 & 0xffff_ffff_0000_0000),
+            // flag registers through the raw accessors: one harmless bit toggled, then restored
+            9 | 10 | 11 => {
+                let (reg, bit) = match t {
+                    9 => (Reg::Cr(0), 8u64),
+                    10 => (Reg::Cr(4), 4),
+                    _ => (Reg::Msr(MSR_EFER), 1),
+                };
+                let p = self.m.get(reg).unwrap_or(0);
+                (reg, p ^ bit, if x2 & 1 != 0 { p } else { p ^ bit })
+            }
+            _ => return Ok(()),
+        };
+        let Some(p) = self.m.get(reg) else { return Ok(()) };
+        // what the typed reader shows of arbitrary prior contents
+        let rmask = match t {
+            7 => RFLAGS_ALL,
+            8 => 0xffff_ffff_0000_0000,
+            _ => !0,
+        };
+        let rd = move || -> u64 {
+            match t {
+                0 => unsafe { Msr::new(idx).read() },
+                1 => KernelGsBase::read().as_u64(),
+                2 => LStar::read().as_u64(),
+                3 => FsBase::read().as_u64(),
+                4 => GsBase::read().as_u64(),
+                5 => {
+                    let (f, v) = Cr3::read_raw();
+                    fr(f) | v as u64
+                }
+                6 => match dn {
+                    0 => Dr0::read(),
+                    1 => Dr1::read(),
+                    2 => Dr2::read(),
+                    _ => Dr3::read(),
+                },
+                7 => SFMask::read().bits(),
+                8 => {
+                    let (a, b) = Star::read_raw();
+                    (a as u64) << 48 | (b as u64) << 32
+                }
+                9 => Cr0::read_raw(),
+                10 => Cr4::read_raw(),
+                _ => Efer::read_raw(),
+            }
+        };
+        let wr = move |v: u64| unsafe {
+            match t {
+                0 => Msr::new(idx).write(v),
+                1 => KernelGsBase::write(VirtAddr::new(v)),
+                2 => LStar::write(VirtAddr::new(v)),
+                3 => FsBase::write(VirtAddr::new(v)),
+                4 => GsBase::write(VirtAddr::new(v)),
+                5 => Cr3::write_raw(frame_of(v & !0xfff), (v & 0xfff) as u16),
+                6 => match dn {
+                    0 => Dr0::write(v),
+                    1 => Dr1::write(v),
+                    2 => Dr2::write(v),
+                    _ => Dr3::write(v),
+                },
+                7 => SFMask::write(RFlags::from_bits_truncate(v)),
+                8 => Star::write_raw((v >> 48) as u16, (v >> 32) as u16),
+                9 => Cr0::write_raw(v),
+                10 => Cr4::write_raw(v),
+                _ => Efer::write_raw(v),
+            }
+        };
+        let out = call(&label, false, || {
+            let a = rd();
+            wr(v1);
+            let b = rd();
+            wr(v2);
+            let c = rd();
+            vec![a, b, c]
+        });
+        self.m.put(reg, v1);
+        self.m.put(reg, v2);
+        self.class |= t << 4;
+        self.finish(out, Exp::new(vec![ev_read(reg, p), ev_write(reg, v1), ev_read(reg, v1), ev_write(reg, v2), ev_read(reg, v2)], Some(vec![p & rmask, v1, v2])))
+    }
+
     fn step(&mut self, fams: &[Fam]) -> R {
         let op = self.op.clone();
         if let Some((name, kind)) = op.split_once('_') {
@@ -1387,6 +1505,7 @@ impl<'a> Cx<'a> {
             "cet_read" | "cet_write" | "cet_update" | "pat_read" | "pat_write" | "apic_read" | "apic_read_raw" | "apic_write" | "apic_write_raw" => self.cet_pat_apic_op(),
             "seg_get" | "seg_set" | "seg_read_base" | "seg_write_base" | "gs_swap" | "load_tss" => self.seg_op(),
             "rflags_read" | "rflags_read_raw" | "rflags_write" | "rflags_write_raw" => self.rflags_op(),
+            "rwr" | "gs_swap_reads" => self.compound_op(),
             _ => Ok(()),
         }
     }
@@ -1456,6 +1575,7 @@ const FAST_OPS: &[(&str, u32)] = &[
     ("pat_read", 2), ("pat_write", 3),
     ("apic_read", 2), ("apic_read_raw", 2), ("apic_write", 4), ("apic_write_raw", 2),
     ("gs_swap", 2), ("load_tss", 1),
+    ("rwr", 8), ("gs_swap_reads", 2),
 ];
 
 /// wrappers whose instructions do not trap in ring 3: run under single-stepping
@@ -1464,6 +1584,9 @@ const MON_OPS: &[(&str, u32)] = &[
     ("seg_get", 3), ("seg_set", 5), ("seg_read_base", 2), ("seg_write_base", 2),
     ("rflags_read", 2), ("rflags_read_raw", 1), ("rflags_write", 3), ("rflags_write_raw", 1),
 ];
+
+/// model-specific registers that hold whatever is written (after `sanitize_msr` / canonicalisation)
+const MSR_CHOICES_PLAIN: [u32; 9] = [0x10, 0xC000_0103, 0x174, 0x1a0, MSR_LSTAR, MSR_CSTAR, MSR_KGS_BASE, MSR_FS_BASE, MSR_GS_BASE];
 
 const MSR_CHOICES: [u32; 16] = [MSR_EFER, MSR_STAR, MSR_LSTAR, MSR_CSTAR, MSR_SFMASK, MSR_FS_BASE, MSR_GS_BASE, MSR_KGS_BASE, MSR_APIC_BASE, MSR_PAT, MSR_U_CET, MSR_S_CET, 0x10, 0xC000_0103, 0x174, 0x1a0];
 
@@ -1677,6 +1800,16 @@ fn mk(rng: &mut Rng, op: &str, like: Option<&Value>) -> Value {
         };
     }
     match op {
+        "rwr" => {
+            let t = rng.below(12);
+            let (v1, v2) = match t {
+                1..=4 => (addr(rng), addr(rng)),
+                5 => (frame(rng) | rng.below(4096), frame(rng) | rng.below(4096)),
+                _ => (any64(rng), any64(rng)),
+            };
+            json!({"op": op, "t": t, "idx": rng.below(9), "n": rng.below(4), "v1": v1, "v2": v2})
+        }
+        "gs_swap_reads" => json!({"op": op}),
         "cr3_write" => json!({"op": op, "frame": frame(rng), "f": sub(rng, CR3_FLAGS)}),
         "cr3_write_raw" => json!({"op": op, "frame": frame(rng), "v": if rng.chance(80) { rng.below(4096) } else { rng.below(65536) }}),
         "cr3_write_pcid" | "cr3_write_pcid_nf" => {
